@@ -609,10 +609,12 @@ Definition run_scase (c : scase) : bool :=
 (** from_EstimationModel case *)
 Record fcase := mk_fcase {
   fc_bias : V3 Qc; fc_noise : V3 Qc; fc_walk : V3 Qc; fc_sm : M3; fc_zT : M3; fc_zb : V3 Qc;
-  fc_T : M3; fc_b : V3 Qc; fc_n : V3 Qc; fc_w : V3 Qc }.
+  fc_T : M3; fc_b : V3 Qc; fc_n : V3 Qc; fc_w : V3 Qc;
+  fc_cols : list string }.                     (* data_frame.columns after apply *)
 Definition run_fcase (c : fcase) : bool :=
   let p := from_model (fc_bias c) (fc_noise c) (fc_walk c) (fc_sm c) (fc_zT c) (fc_zb c) in
-  M3_eqb (p_T p) (fc_T c) && V3_eqb (p_b p) (fc_b c) && V3_eqb (p_noise p) (fc_n c) && V3_eqb (p_walk p) (fc_w c).
+  M3_eqb (p_T p) (fc_T c) && V3_eqb (p_b p) (fc_b c) && V3_eqb (p_noise p) (fc_n c) && V3_eqb (p_walk p) (fc_w c)
+  && list_eqb String.eqb (columns p) (fc_cols c).
 
 (** indices of the cases on which [f] is false *)
 Definition mismatches {A} (f : A -> bool) (cases : list A) : list nat :=
